@@ -623,7 +623,7 @@ pub fn run_c19(ctx: &mut Ctx) {
             // an unrelated module whose items are named like predefined types, written before
             // and after the observed module
             {
-                let legacy = pyxis::parser::parse_str("#[align(2)] pub type u16 { pub x: u8, pub y: u8, }\n#[size(4), align(4)] extern type u8;\npub enum bool: u32 { A, }\n#[align(4)] pub type Old { pub a: u16, pub b: u8, pub c: bool, pub d: u32, pub e: u64, pub f: f32, }").expect("legacy module parses");
+                let legacy = pyxis::parser::parse_str("#[align(2)] pub type u16 { pub x: u8, pub y: u8, }\n#[size(4), align(4)] extern type u8;\npub enum bool: u32 { A, }\n#[align(8)] pub type Old { pub a: u16, pub b: u8, pub c: bool, pub d: u32, pub e: u64, pub f: f32, pub g: u32, }").expect("legacy module parses");
                 let mut v = g.mods.clone();
                 v.push((ItemPath::from(format!("{id}legacy").as_str()), legacy.clone()));
                 variants.push(("predefined-names-shadowed-elsewhere/after", v));
